@@ -186,42 +186,69 @@ def filter_true_sets(F, kb):
 
 
 def r2(F, R):
+    """Repeat::handle_event on its deep path table (the replay loop may live in a private async helper)."""
+    from . import deep as D
+    from .spans import upvar_types
     fn, co = handle_event_co(F, REP)
-    inner = [(s, t) for s, t in co.calls(lambda t: (op_fn(t["func"]) or {}).get("trait") == "writer::Writer")]
-    R.check(len(inner) == 2, "inner-call-sites", co, "forward + replay", f"{len(inner)} inner handle_event call sites")
-    if len(inner) != 2:
-        return
-    if co.dominates(inner[1][0], inner[0][0]):
-        inner = [inner[1], inner[0]]
-    (s_fwd, t_fwd), (s_rep, t_rep) = inner
-    R.check(co.dominates(s_fwd, s_rep) and not co.entry_reaches_return(stop=[s_fwd]) and not co.in_cycle(s_fwd), "forward-once-first", s_fwd,
-            "the event is forwarded exactly once, before any replay", "the incoming event is not forwarded exactly once before the replay")
-    # forwarded value is the parameter itself
-    fsl = A.slice_back(co, [t_fwd["args"][1]], stop_calls=[r"Future::poll$"])
-    R.check(bool(fsl.upvars) and not [c for _, c in fsl.calls if not callee_is(c, r"Deref", r"Clone::clone$")], "forward-unchanged", s_fwd, "", "the forwarded event is transformed")
-    # buffering iff filter
-    pushes = [(s, t) for s, t in co.calls(lambda t: callee_is(t, r"Vec::<.*>::push$"))]
-    okp = False
-    if len(pushes) == 1:
-        s, t = pushes[0]
-        gs = A.guards_of(co, s)
-        fil = [g for g in gs if g.cond_def() and g.cond_def()[0] == "call" and (op_fn(g.cond_def()[2]["func"]) or {}).get("self", "").lstrip("&") == "F" and g.polarity() is True]
-        others = [g for g in gs if g not in fil and g.cond_def() and g.cond_def()[0] != "discr"]
-        okp = len(fil) == 1 and not others
-        psl = A.slice_back(co, [t["args"][1]], stop_calls=[r"Future::poll$"])
-        okp = okp and psl.has_call(r"Clone::clone$") and bool(psl.upvars)
-    R.check(okp, "buffer-iff-filter", pushes[0][0] if pushes else co, "events.push(event.clone()) iff filter(&event)", "buffering is not conditioned exactly on the filter (or does not store a clone of the event)")
-    # replay only on Finished, over mem::take(events), in order
-    vc = A.vc_at(co, s_rep)
-    fin = any(v == frozenset(["Finished"]) for v in vc.values())
-    R.check(fin and co.in_cycle(s_rep), "replay-on-finished", s_rep, "replay loop only after Ok(Cucumber::Finished)", "the replay is not restricted to Ok(Cucumber::Finished) (or is not a loop over the buffer)")
-    rsl = A.slice_back(co, [t_rep["args"][1]], stop_calls=[r"Future::poll$"])
-    takes = rsl.calls_matching(r"mem::take$")
-    bad = [callee_path(c).rsplit("::", 1)[-1] for _, c in rsl.calls if (op_fn(c["func"]) or {}).get("trait", "").endswith(("Iterator", "Itertools", "DoubleEndedIterator"))
-           and callee_path(c).rsplit("::", 1)[-1] not in ("next", "into_iter")]
-    R.check(len(takes) == 1 and not bad and rsl.has_call(r"IntoIterator::into_iter$"), "replay-in-order-once", s_rep, "for ev in mem::take(&mut self.events)",
-            f"the replay does not walk mem::take(events) front to back (adaptors: {bad}, takes: {len(takes)})")
-    R.check(co.dominates(s_fwd, s_rep), "replay-after-finished-forwarded", s_rep, "", "replay precedes forwarding Finished")
+    ev_idx = [i for i, ty in upvar_types(co).items() if ty.startswith("std::result::Result<event::Event<event::Cucumber<")]
+    if len(ev_idx) != 1:
+        raise Unverifiable(f"Repeat::handle_event: {len(ev_idx)} captured event parameters")
+    EV = ("field", ("arg", 1), ev_idx[0])
+
+    def norm(t):
+        if isinstance(t, tuple) and t:
+            if t[0] in ("conv", "refto", "ref", "deref") and len(t) == 2:
+                return norm(t[1])
+            return tuple(norm(x) for x in t)
+        return t
+    rows = D.Deep(F, co, max_paths=600).run()
+    if not rows:
+        raise Unverifiable("Repeat::handle_event: empty path table")
+    bad = {}
+    n_fin = n_loop = 0
+    for p in rows:
+        eff = p.effects
+        inner = [(i, e) for i, e in enumerate(eff) if e[0] == "call" and re.search(r"Writer(<.*>)?(>)?::handle_event$", e[1])]
+        fwd = [(i, e) for i, e in inner if len(e[2]) > 1 and norm(e[2][1]) == EV]
+        rep = [(i, e) for i, e in inner if len(e[2]) > 1 and D.mentions(e[2][1], lambda y: y[0] == "call" and re.search(r"Iterator::next$", y[1]))]
+        if len(fwd) != 1 or len(fwd) + len(rep) != len(inner) or any(i < fwd[0][0] for i, _ in rep):
+            bad.setdefault("forward-once-first", "the incoming event is not forwarded exactly once (unchanged) before any replay")
+            continue
+        fil = [(a, o) for a, o in p.conds if a[0] == "call" and a[1] == "<indirect>" and isinstance(o, bool) and D.mentions(a, lambda y: norm(y) == EV)]
+        pushes = [(i, e) for i, e in enumerate(eff) if e[0] == "call" and re.search(r"Vec(::<.*>)?::push$", e[1])]
+        if len(fil) != 1 or len(pushes) != (1 if fil[0][1] else 0) or any(norm(e[2][1]) != EV for _, e in pushes):
+            bad.setdefault("buffer-iff-filter", "buffering is not conditioned exactly on the filter (or does not store a clone of the event)")
+        finished = any(o == "Finished" and a[0] == "discr" and D.mentions(a, lambda y: norm(y) == EV) for a, o in p.conds)
+        takes = [(i, e) for i, e in enumerate(eff) if e[0] == "call" and re.search(r"mem::take$", e[1])]
+        if (takes or rep) and not finished:
+            bad.setdefault("replay-on-finished", "the replay is not restricted to Ok(Cucumber::Finished)")
+        if finished:
+            n_fin += 1
+            nexts = [(i, e) for i, e in enumerate(eff) if e[0] == "call" and re.search(r"Iterator::next$", e[1])]
+            ok = len(takes) == 1 and len(nexts) >= 1
+            if ok:
+                it = norm(nexts[0][1][2][0])
+                tk = ("call", takes[0][1][1], takes[0][1][2], takes[0][1][4])
+                ok = it[0] == "call" and re.search(r"IntoIterator::into_iter$", it[1]) is not None and it[2][0] == norm(tk) and norm(tk)[2][0][0] == "field"
+                for i, e in rep:
+                    nx = [n_ for n_ in nexts if n_[0] < i]
+                    want = ("field", ("as", ("call", nx[-1][1][1], nx[-1][1][2], nx[-1][1][4]), "Some"), 0) if nx else None
+                    ok = ok and want is not None and norm(e[2][1]) == norm(want)
+                    looped = p.cut or any(e2[0] == "loop-back" for e2 in eff[i:])
+                    ok = ok and looped
+                    n_loop += 1
+            if not ok:
+                bad.setdefault("replay-in-order-once", "the replay does not walk mem::take(events) front to back, handing each element to the inner writer in a loop")
+            if takes and takes[0][0] < fwd[0][0]:
+                bad.setdefault("replay-after-finished-forwarded", "replay precedes forwarding Finished")
+    if n_fin == 0 or n_loop == 0:
+        bad.setdefault("replay-on-finished", "no path replays the buffer after Ok(Cucumber::Finished)")
+    R.check(True, "inner-call-sites", co, f"forward + replay on {len(rows)} paths")
+    for key, txt in (("forward-once-first", "the event is forwarded exactly once, before any replay"), ("forward-unchanged", ""), ("buffer-iff-filter", "events.push(event.clone()) iff filter(&event)"),
+                     ("replay-on-finished", "replay loop only after Ok(Cucumber::Finished)"), ("replay-in-order-once", "for ev in mem::take(&mut self.events)"),
+                     ("replay-after-finished-forwarded", "")):
+        k2 = "forward-once-first" if key == "forward-unchanged" else key
+        R.check(k2 not in bad, key, co, txt, bad.get(k2, ""))
     # accepted sets
     ctors = {}
     for b in F.crate_bodies():
